@@ -1,21 +1,50 @@
 (* C10 - ds.List behaves exactly like a reference doubly-linked list (container/list). Statements only. *)
 From Coq Require Import ZArith List Bool.
-From Verif.C10_List Require Import Model Ring Proofs Proofs2.
+From Verif.C10_List Require Import Model Ring Proofs Proofs2 Proofs3.
 Import ListNotations.
 Close Scope Z_scope.
 
-(* Full statement: for EVERY history h of the twelve mutating calls in which no call passes a handle that
-   Init orphaned (zombie_free), the pointer-level model of ds/list_impl.go never panics, returns what the
-   container/list contract (astep: sequences of element ids per list) returns at every call, and ends in a
-   state that represents (R) the contract's state. *)
+(* Full statement: for EVERY history h of the twelve mutating calls AND the four iteration methods (ForEach,
+   ForEachReverse, Range, RangeReverse; Iter l rv fe script) with ANY scripted callback - at each visit nothing,
+   an abort with an error, or one call of any of the twelve methods on any list with the visited element, its
+   Next(), its Prev() or a fixed handle as arguments - in which no call passes a handle that Init orphaned and no
+   callback orphans the element the walk stands on (czombie_free), the pointer-level model of ds/list_impl.go
+   never panics, returns what the container/list contract returns at every call - for an iteration: the sequence
+   of visited values of the reference loop  for e := l.Front(); e != nil; e = e.Next() { f(e) }  (acstep/aiter:
+   successor read after the callback) and whether it was aborted - and ends in a state that represents (R) the
+   contract's state. *)
 Definition C10_refines_full_statement : Prop := forall h,
+  czombie_free ainit h = true ->
+  exists st', crun init_state h = Some (st', snd (acrun ainit h)) /\ R st' (fst (acrun ainit h)).
+
+(* Proved for all twelve calls and all four iteration methods, every script (induction over the walk:
+   Proofs3.iter_refines; each round = the callback's call by C10_step_refines, then Next()/Prev() of the visited
+   element in the NEW state: its successor there if it is still a member, nil if the callback removed it). *)
+Theorem C10_refines : C10_refines_full_statement.
+Proof. intros h. exact (crun_refines h init_state ainit R_init). Qed.
+
+(* the visit sequence of one iteration from any represented state = the reference loop's, for every script *)
+Theorem C10_iter_visits_reference : forall st a l rv fe script,
+  R st a -> call_zombie_free a (Iter l rv fe script) = true ->
+  option_map snd (cstep st (Iter l rv fe script)) = Some (snd (acstep a (Iter l rv fe script))).
+Proof. exact iter_visits_reference. Qed.
+
+(* non-vacuity: callbacks that push behind the last element while it is visited (it is visited too), remove the
+   visited element (the walk ends), remove its successor (skipped), insert behind it, move it, push whole lists;
+   reverse walks; an abort *)
+Example C10_refines_iter_nonvacuous :
+  czombie_free ainit sample_iter_history = true /\
+  snd (acrun ainit sample_iter_history) =
+    [COut (OHandle (Some (El 0))); COut (OHandle (Some (El 1))); COut (OHandle (Some (El 2)));
+     CIter [1; 2; 3; 4]%Z false; CIter [1; 2]%Z false; CIter [1; 4; 7]%Z true; CIter [7; 4; 1]%Z false;
+     COut ONone; CIter [7; 4; 1; 9]%Z false] /\
+  option_map snd (crun init_state sample_iter_history) = Some (snd (acrun ainit sample_iter_history)).
+Proof. exact sample_iter_history_ok. Qed.
+
+(* The twelve calls alone (histories without iterations), as before. *)
+Theorem C10_refines_calls : forall h,
   zombie_free ainit h = true ->
   exists st', run init_state h = Some (st', snd (arun ainit h)) /\ R st' (fst (arun ainit h)).
-
-(* Proved for all twelve calls: Init, PushFront, PushBack, Remove, InsertBefore, InsertAfter, MoveToFront,
-   MoveToBack, MoveBefore, MoveAfter, PushBackList, PushFrontList (the last two with the length-snapshot loop,
-   including l.PushBackList(l) / l.PushFrontList(l)). *)
-Theorem C10_refines : C10_refines_full_statement.
 Proof. intros h. exact (run_refines_full h init_state ainit R_init). Qed.
 
 (* non-vacuity: a zombie-free history with all twelve calls, self-pushes, foreign and removed handles and an
@@ -31,6 +60,12 @@ Theorem C10_step_refines : forall st a o,
   R st a -> existsb (is_orphan a) (handles o) = false ->
   exists st', step st o = Some (st', snd (astep a o)) /\ R st' (fst (astep a o)).
 Proof. exact step_refines_full. Qed.
+
+(* ... and one call or one whole iteration (any script) from any represented state. *)
+Theorem C10_call_refines : forall st a c,
+  R st a -> call_zombie_free a c = true ->
+  exists st', cstep st c = Some (st', snd (acstep a c)) /\ R st' (fst (acstep a c)).
+Proof. exact cstep_refines. Qed.
 
 (* In every represented state the observations are those of the contract: Len, Front, Back, the forward and the
    reverse value sequence (Values/Range/ForEach and ForEachReverse) of every list ... *)
@@ -53,10 +88,10 @@ Proof. exact handle_obs_refines. Qed.
 (* ... so, end to end: after EVERY zombie-free history the model has not panicked, has returned the contract's
    results and shows the contract's Len/Front/Back/Values/reverse Values and Prev/Next/Value of every live handle. *)
 Theorem C10_refines_observed : forall h,
-  zombie_free ainit h = true ->
-  exists st', run init_state h = Some (st', snd (arun ainit h)) /\
-              R st' (fst (arun ainit h)) /\ observed_equal st' (fst (arun ainit h)).
-Proof. exact run_refines_observed. Qed.
+  czombie_free ainit h = true ->
+  exists st', crun init_state h = Some (st', snd (acrun ainit h)) /\
+              R st' (fst (acrun ainit h)) /\ observed_equal st' (fst (acrun ainit h)).
+Proof. exact crun_refines_observed. Qed.
 
 (* ... and Prev/Next are nil on every handle that is in no list (removed or never inserted). *)
 Theorem C10_removed_handle_nil : forall st a n,
@@ -96,9 +131,46 @@ Theorem C10_refuted_move_pinned :
   option_map (fun s => values s 0) (run_with step_pinned init_state d10a_after) = Some [1; 2; 3]%Z.
 Proof. exact d10a_pinned. Qed.
 
-(* Thread-safe flavour, sequential callers: after fix d8bfa53 no call blocks and every call does exactly what
-   the lock-free flavour does ... *)
-Theorem C10_ts_equals_plain : forall st o, step_ts st o = Done (step st o).
+(* Thread-safe flavour, sequential callers, the RWMutex of every list explicit (Model.locks: the read and write
+   holds; a lock that cannot be taken blocks for ever): every method of the wrapper - the twelve calls and the
+   four iteration methods - gives back the lock state it found, on EVERY exit path: normal return, return of the
+   callback's error (an aborted ForEach), a panic out of the callback ... *)
+Theorem C10_ts_releases : forall k st c r k1, cstep_ts k st c = TDone r k1 -> k1 = k.
+Proof. exact cstep_ts_releases. Qed.
+
+(* ... so after fix d8bfa53 no call of a whole history blocks, every call does exactly what the lock-free flavour
+   does and all locks are free at the end - for all histories whose callbacks do not write the list they iterate
+   (ts_safe; aborting callbacks included) ... *)
+Theorem C10_ts_equals_plain : forall h st,
+  forallb ts_safe h = true -> crun_ts lk0 st h = TDone (crun st h) lk0.
+Proof. exact crun_ts_equals_plain. Qed.
+
+Theorem C10_ts_step_equals_plain : forall st c, ts_safe c = true -> cstep_ts lk0 st c = TDone (cstep st c) lk0.
+Proof. exact cts_equals_plain. Qed.
+
+(* ... ts_safe is necessary: while a read lock of a list is held (an iteration is running), every one of the
+   twelve calls on that list blocks for ever - a callback of the thread-safe flavour cannot mutate the list it
+   iterates, unlike the reference loop (sync.RWMutex is not re-entrant; by design, not covered by the harness) ... *)
+Theorem C10_ts_reentrant_write_blocks : forall fixed k st o,
+  mem (op_list o) (rd k) = true -> op_ts fixed k st o = TBlocked.
+Proof. exact reentrant_write_blocks. Qed.
+
+(* ... and the lock model is not blind: [1 2 3]; ForEach aborted at the second element; PushBack(5) gives
+   [1 2 3 5] with the deferred unlock, but blocks for a wrapper that skips the unlock on the error path. *)
+Example C10_lock_model_sensitive :
+  forallb ts_safe abort_then_push = true /\
+  option_map (fun r => (values (fst r) 0, nth 3 (snd r) (CIter [] false))) (crun init_state abort_then_push)
+    = Some ([1; 2; 3; 5]%Z, CIter [1; 2]%Z true) /\
+  crun_ts_gen (rp true false true) lk0 init_state abort_then_push = TBlocked.
+Proof. exact abort_then_push_ok. Qed.
+
+Example C10_lock_model_sensitive_panic :
+  crun_ts_gen (rp true true false) lk0 init_state [Call (PushBack 0 1%Z); Iter 0 false false [CPanic]] = TDone None (lk [0] []) /\
+  crun_ts lk0 init_state [Call (PushBack 0 1%Z); Iter 0 false false [CPanic]] = TDone None lk0.
+Proof. exact panic_path_ok. Qed.
+
+(* the twelve calls in the older formulation without explicit lock state *)
+Theorem C10_ts_calls_equal_plain : forall st o, step_ts st o = Done (step st o).
 Proof. exact ts_equals_plain. Qed.
 
 (* ... while the pinned wrapper deadlocks on l.PushBackList(l) / l.PushFrontList(l) in every state (D10b). *)
@@ -107,7 +179,10 @@ Theorem C10_refuted_selfpush_pinned : forall st l,
 Proof. exact selfpush_deadlock_pinned. Qed.
 
 Print Assumptions C10_refines.
+Print Assumptions C10_iter_visits_reference.
+Print Assumptions C10_refines_calls.
 Print Assumptions C10_step_refines.
+Print Assumptions C10_call_refines.
 Print Assumptions C10_observations.
 Print Assumptions C10_handle_observations.
 Print Assumptions C10_refines_observed.
@@ -115,5 +190,9 @@ Print Assumptions C10_removed_handle_nil.
 Print Assumptions C10_foreign_noop.
 Print Assumptions C10_move.
 Print Assumptions C10_refuted_move_pinned.
+Print Assumptions C10_ts_releases.
 Print Assumptions C10_ts_equals_plain.
+Print Assumptions C10_ts_step_equals_plain.
+Print Assumptions C10_ts_reentrant_write_blocks.
+Print Assumptions C10_ts_calls_equal_plain.
 Print Assumptions C10_refuted_selfpush_pinned.
